@@ -664,7 +664,7 @@ def stepRepl (st : State) (toks : List String) : State × String :=
   let get (k : String) : String := (DbProto.kvOf toks k).getD "_"
   if toks.head? != some "p.init" && w.nodes.length == 0 then (st, "bad-op") else
   -- the RPCs act on settled states
-  let w := if ["p.newterm", "p.lead", "p.elect", "p.electm", "p.add", "p.write", "p.racewrite", "p.restart", "p.crash", "p.trunc", "p.cut"].contains (toks.headD "") then Repl.settle g w else w
+  let w := if ["p.newterm", "p.lead", "p.elect", "p.electm", "p.add", "p.write", "p.racewrite", "p.racesync", "p.restart", "p.crash", "p.trunc", "p.cut"].contains (toks.headD "") then Repl.settle g w else w
   match toks with
   | "p.init" :: _ => ({ st with world := Repl.World.init ((get "n").toNat?.getD 3) }, "ok")
   | ["p.newterm", i, t] =>
@@ -726,6 +726,16 @@ def stepRepl (st : State) (toks : List String) : State × String :=
         | .ok rep => "head=" ++ toString rep.1 ++ ":" ++ toString rep.2 ++ " wal=" ++ toString h.1 ++ ":" ++ toString h.2
         | .error e => showReplErr e)
     | _, _, _ => (st, "bad-op")
+  | ["p.racesync", l, f, id, t] =>
+    match l.toNat?, f.toNat?, id.toNat?, t.toInt? with
+    | some l, some f, some id, some t =>
+      let (w', r) := Repl.raceAppendNewTerm g Facts.followerNewTermSyncsWalBeforeHead w l f id t
+      let h := Repl.headOf (Repl.getNode w' f).log
+      ({ st with world := w' }, match r with
+        | none => "norace"
+        | some (.ok rep) => "head=" ++ toString rep.1 ++ ":" ++ toString rep.2 ++ " wal=" ++ toString h.1 ++ ":" ++ toString h.2
+        | some (.error e) => showReplErr e)
+    | _, _, _, _ => (st, "bad-op")
   | ["p.trunc", f, t, o] =>
     -- a (re-)delivered Truncate request
     match f.toNat?, t.toInt?, o.toInt? with
@@ -788,6 +798,10 @@ def stepReplTracked (st : State) (toks : List String) : State × String :=
             match tm.toInt? with
             | some tm => if tm ≤ t.lastElect then AReplSim.switchOff t "an election that reuses a term" else { t with lastElect := tm }
             | none => t
+          | ["p.racesync", _, _, _, tm] =>
+            match tm.toInt? with
+            | some tm => if tm ≤ t.lastElect then AReplSim.switchOff t "an election that reuses a term" else { t with lastElect := tm }
+            | none => t
           | ["p.racewrite", _, _, tm] =>
             match tm.toInt? with
             | some tm => if tm ≤ t.lastElect then AReplSim.switchOff t "an election that reuses a term" else { t with lastElect := tm }
@@ -796,6 +810,7 @@ def stepReplTracked (st : State) (toks : List String) : State × String :=
         let hint : AReplSim.Hint := match toks with
           | ["p.write", i, id] => (match i.toNat?, id.toNat? with | some i, some id => .write i id | _, _ => .none)
           | ["p.racewrite", i, id, _] => (match i.toNat?, id.toNat? with | some i, some id => .write i id | _, _ => .none)
+          | ["p.racesync", i, _, id, _] => (match i.toNat?, id.toNat? with | some i, some id => .write i id | _, _ => .none)
           | _ => .none
         AReplSim.advance t st'.world hint
     let out := if op == "p.state" && t.flagged then out ++ " AREPL-UNEXPLAINED(" ++ t.note ++ ")" else out
